@@ -227,6 +227,14 @@ func (fc *FuncCtx) execCall0(fr *Frame, st *State, site ssa.Instruction, c *ssa.
 		}
 	}
 	defer func() { fc.havocArgTypes = saved }()
+	// arguments leave the activation's private data
+	for _, a := range c.Args {
+		if mi, ok := a.(*ssa.MakeInterface); ok {
+			fc.publish(st, mi.X.Type())
+			continue
+		}
+		fc.publish(st, a.Type())
+	}
 	short, full := calleeNames(c)
 	var args []Value
 	for _, a := range c.Args {
@@ -434,6 +442,36 @@ func (fc *FuncCtx) callWithContract(fr *Frame, st *State, con *Contract, fn *ssa
 		} else {
 			ms := &ModSet{keys: map[string]bool{}}
 			for _, p := range pats {
+				if (strings.HasPrefix(p, "cellof(") || strings.HasPrefix(p, "rowof(")) && strings.HasSuffix(p, ")") {
+					isCell := strings.HasPrefix(p, "cellof(")
+					src := p[strings.Index(p, "(")+1 : len(p)-1]
+					e, err := ParseExpr(src)
+					if err != nil {
+						fc.unsupported("bad frame item %q: %v", p, err)
+					}
+					ev := fc.newEnvVars(st, st, vars, calleeUnit)
+					v := ev.eval(e)
+					if isCell {
+						sc := ev.asScalar(v)
+						if sc.Typ == nil {
+							fc.unsupported("cellof(%s): untyped", src)
+						}
+						pt, ok := sc.Typ.Underlying().(*types.Pointer)
+						if !ok {
+							fc.unsupported("cellof(%s): not a pointer", src)
+						}
+						// materialise every leaf of the cell first, so that all of them are havocked
+						fc.loadAt(st, "O!"+typeKey(pt.Elem()), []string{sc.T}, []string{"Int"}, "", pt.Elem())
+						fc.havocCell(st, "O!"+typeKey(pt.Elem()), sc.T)
+					} else {
+						sv, ok := v.(SliceV)
+						if !ok {
+							fc.unsupported("rowof(%s): not a slice", src)
+						}
+						fc.havocRow(st, sv)
+					}
+					continue
+				}
 				if strings.HasPrefix(p, "elemsof(") && strings.HasSuffix(p, ")") {
 					// only the elements p[0:len(p)] of the named slice parameter may change
 					pv, ok := vars[p[8:len(p)-1]].(SliceV)
@@ -494,6 +532,61 @@ func (fc *FuncCtx) callWithContract(fr *Frame, st *State, con *Contract, fn *ssa
 
 type calleeScope struct{ con *Contract }
 
+// havocCell: every component of the object family `prefix` may change at reference ref only.
+func (fc *FuncCtx) havocCell(st *State, prefix, ref string) {
+	// make sure the components of the family that were already touched are handled; untouched ones are
+	// materialised lazily and carry no information about other cells anyway
+	for k, cur := range st.heap {
+		if !(k == prefix || strings.HasPrefix(k, prefix+".")) || strings.HasPrefix(cur, "?") {
+			continue
+		}
+		srt := fc.compSorts[k]
+		if !strings.HasPrefix(srt, "(Array Int ") {
+			continue
+		}
+		nxt := fc.u.fresh("cell!"+clip(k, 30), srt)
+		fc.u.emit("(assert (forall ((r Int)) (! (=> (not (= r " + ref + ")) (= (select " + nxt + " r) (select " + cur + " r))) :pattern ((select " + nxt + " r)))))")
+		// ground instances for the references already in play (saves the solver from finding them by matching)
+		for _, t := range fc.idxTermsFor(k) {
+			if t != ref {
+				fc.u.emit("(assert (=> (not (= " + t + " " + ref + ")) (= (select " + nxt + " " + t + ") (select " + cur + " " + t + "))))")
+			}
+		}
+		st.heap[k] = nxt
+	}
+}
+
+// havocRow: the element row of the slice's backing array may change arbitrarily; rows of other arrays that
+// existed before keep their contents (rows allocated by the operation are arbitrary).
+func (fc *FuncCtx) havocRow(st *State, sv SliceV) {
+	et := sv.Elem
+	prefix := "E!" + typeKey(et)
+	a := fc.allocTerm(st)
+	// materialise the plain component so that the frame applies to it
+	if _, isSt := et.Underlying().(*types.Struct); !isSt || !fc.structIsFlat(et) {
+		if _, isSl := et.Underlying().(*types.Slice); !isSl {
+			fc.compTerm(st, prefix, arraySort([]string{"Int", fc.intSort()}, fc.sortOf(et)))
+		}
+	}
+	for k, cur := range st.heap {
+		if !(k == prefix || strings.HasPrefix(k, prefix+".")) || strings.HasPrefix(cur, "?") {
+			continue
+		}
+		srt := fc.compSorts[k]
+		if !strings.HasPrefix(srt, "(Array Int ") {
+			continue
+		}
+		nxt := fc.u.fresh("row!"+clip(k, 30), srt)
+		fc.u.emit("(assert (forall ((b Int)) (! (=> (and (not (= b " + sv.Base + ")) (<= b " + a + ")) (= (select " + nxt + " b) (select " + cur + " b))) :pattern ((select " + nxt + " b)))))")
+		for _, t := range fc.idxTermsFor(k) {
+			if t != sv.Base {
+				fc.u.emit("(assert (=> (and (not (= " + t + " " + sv.Base + ")) (<= " + t + " " + a + ")) (= (select " + nxt + " " + t + ") (select " + cur + " " + t + "))))")
+			}
+		}
+		st.heap[k] = nxt
+	}
+}
+
 // havocSliceRange: the elements sv[0:len] get arbitrary values, everything else in that component is unchanged.
 func (fc *FuncCtx) havocSliceRange(st *State, sv SliceV) {
 	et := sv.Elem
@@ -547,6 +640,9 @@ func (fc *FuncCtx) assignPattern(p string, con *Contract) string {
 		if t := fc.eng.lookupType(pk, tn); t != nil {
 			return "O!" + typeKey(t) + p[dot:]
 		}
+	}
+	if t := fc.eng.lookupType(pk, p); t != nil {
+		return "O!" + typeKey(t)
 	}
 	fc.unsupported("cannot resolve assigns item %q", p)
 	return ""
@@ -1132,6 +1228,7 @@ func (fc *FuncCtx) execRunDefers(fr *Frame, st *State, x *ssa.RunDefers) {
 // ---------- channels ----------
 
 func (fc *FuncCtx) execSend(fr *Frame, st *State, x *ssa.Send) {
+	fc.publish(st, x.X.Type())
 	ch := fc.val(fr, st, x.Chan).(Scalar)
 	fc.atCallClauses(fr, st, x, "send", "send", map[string]Value{"ch": ch, "value": fc.val(fr, st, x.X)}, x.Pos())
 	if fr.con != nil && fr.con.Flags["sendclosed"] != "" {
@@ -1188,6 +1285,7 @@ func (fc *FuncCtx) execSelect(fr *Frame, st *State, x *ssa.Select) Value {
 		ch := fc.val(fr, st, s.Chan).(Scalar)
 		taken := fmt.Sprintf("(= %s %d)", idx, k)
 		if s.Dir == types.SendOnly {
+			fc.publish(st, s.Send.Type())
 			// the value offered on this case (call-site obligations on sends apply to select cases too)
 			fc.atCallClauses(fr, st, x, "send", "send", map[string]Value{"ch": ch, "value": fc.val(fr, st, s.Send)}, x.Pos())
 			fc.bumpEvent(st, "sends", ch.T, taken)
